@@ -74,8 +74,11 @@ def _plain_walk(v, segs, rhs):
 def run_lhs(ctx, ntok, first, via):
     from oslo_policy import policy
     common.set_ctx(ctx)
-    toks = [TOKENS[first]] + [ctx.choice('t%d' % i, TOKENS)
-                              for i in range(1, ntok)]
+    if ntok == 0:
+        toks = []
+    else:
+        toks = [TOKENS[first]] + [ctx.choice('t%d' % i, TOKENS)
+                                  for i in range(1, ntok)]
     lhs = ''.join(toks)
     creds = {'roles': ['r'], 'a': {'b': 'x', '0': 'x', 'a': ['x', {'b': 'x'}]},
              'b': 'x', 'None': 'x'}
@@ -119,7 +122,8 @@ def run_lhs(ctx, ntok, first, via):
 
 def cubes_lhs(tier, seed):
     L = 3 if tier == 'quick' else 4
-    out = []
+    out = [{'ntok': 0, 'first': 0, 'via': v}
+           for v in ('list', 'list-and', 'text', 'expr')]
     for n in range(1, L + 1):
         for f in range(len(TOKENS)):
             for via in (('list', 'text') if n == L and L > 2
